@@ -243,6 +243,8 @@ def main():
     for r in range(nax):
         N = int(rng.randint(2, 40))
         dt = float(rng.uniform(0.05, 5.0))
+        if r % 5 == 4:
+            dt = -dt            # descending axes are axes too
         start = float(rng.uniform(-20, 20)) if rng.rand() < 0.7 else 0.0
         for atype in ("complete", "upper-half"):
             rp = dict(kind="axis", N=N, dt=dt, start=start, atype=atype)
@@ -250,9 +252,9 @@ def main():
                 ta = TimeAxis(start, N, dt, atype=atype)
                 fa = ta.get_FrequencyAxis()
                 tb = fa.get_TimeAxis()
-                sc = max(1.0, abs(start) + N * dt)
+                sc = max(1.0, abs(start) + N * abs(dt))
                 ok = (tb.length == N and tb.atype == atype and
-                      abs(tb.step - dt) < 1e-12 * dt and
+                      abs(tb.step - dt) < 1e-12 * abs(dt) and
                       numpy.abs(tb.data - ta.data).max() < 1e-11 * sc)
                 ck.case("axis-round-trip", ("t", r, atype), nontrivial=N > 1,
                         sample=rp)
